@@ -39,8 +39,7 @@ def run(ctx):
     group_action(ctx, I)
     index_formula(ctx)
     angles(ctx)
-    coverage(ctx, I)
-    normalisation(ctx, I)
+    density_by_interpretation(ctx)
     batching(ctx)
 
 
@@ -143,15 +142,28 @@ def group_action(ctx, I0):
     fn = ctx.program.require("pydrex.stats.misorientation_hist")
     mod = ctx.program.module("pydrex.stats")
     hloc = defloc(ctx, "pydrex.stats.misorientation_hist")
+    # the loop variable that ranges over the symmetry operators (for qs in symmetry_ops / enumerate(symmetry_ops))
+    opvars = set()
+    for lp in ast.walk(fn):
+        if isinstance(lp, (ast.For, ast.comprehension)):
+            it_ = lp.iter
+            inner = it_.args[0] if isinstance(it_, ast.Call) and (flow.dotted(it_.func) or "") == "enumerate" and it_.args else it_
+            if isinstance(inner, ast.Name) and "symmetry" in inner.id:
+                tgt = lp.target
+                names = [tgt] if isinstance(tgt, ast.Name) else [e for e in getattr(tgt, "elts", []) if isinstance(e, ast.Name)]
+                if names:
+                    opvars.add(names[-1].id)
+    # every value stored into an array that is computed from an operator is an application of that operator to a grain
     stores = [s for s in ast.walk(fn) if isinstance(s, ast.Assign) and isinstance(s.targets[0], ast.Subscript)
-              and (flow.dotted(s.targets[0].value) or "").startswith("q") and "_array" in (flow.dotted(s.targets[0].value) or "")]
+              and any(isinstance(x, ast.Name) and x.id in opvars for x in ast.walk(s.value))]
     via = [s for s in stores if isinstance(s.value, ast.Call) and (flow.dotted(s.value.func) or "").split(".")[-1] == "quat_product"]
     other = [s for s in stores if s not in via]
-    ctx.ob("C14.group-action", "stats.misorientation_hist:applications", len(via) >= 2 and not other,
+    ctx.ob("C14.group-action", "stats.misorientation_hist:applications", len(via) >= 1 and not other,
            f"{len(via)} application(s) through quat_product, {len(other)} by other means (lines {[s.lineno for s in other]})", hloc)
     # left multiplication by the operator: quat_product(op, q)
-    left = all(isinstance(s.value.args[0], ast.Name) and isinstance(s.value.args[1], ast.Name) and s.value.args[0].id != s.value.args[1].id for s in via)
-    ctx.ob("C14.group-action", "stats.misorientation_hist:operator multiplies from the left on both grains", left and len(via) >= 2, "", hloc)
+    left = all(len(s.value.args) == 2 and isinstance(s.value.args[0], ast.Name) and s.value.args[0].id in opvars
+               and not any(isinstance(x, ast.Name) and x.id in opvars for x in ast.walk(s.value.args[1])) for s in via)
+    ctx.ob("C14.group-action", "stats.misorientation_hist:operator multiplies from the left on both grains", left and len(via) >= 1, "", hloc)
     ctx.floor("C14.group-action", 8)
 
 
@@ -308,6 +320,65 @@ class NotFoldable(Exception):
 
 
 FOLD_DEFS = {}      # module-level function definitions of pydrex.stats (helpers that only compute constants are folded through)
+
+
+def density_by_interpretation(ctx):
+    """The theoretical random-misorientation density, interpreted on the finite table (lattice system) x (one-degree bin): all arguments are
+    constants of the program, so the interpreter folds every comparison and returns closed forms, which are evaluated exactly.  Decided per
+    system: (coverage) every bin of [0, theta_max] is served by a branch (no AssertionError), and no mass lies in bins beyond theta_max;
+    (normalisation) the bins of [0, theta_max] sum to 1 within the quadrature error 1e-3.  Independent of how the function is written."""
+    from ..interp import RaiseSig
+    from ..values import Unsupported
+    dotted = "pydrex.stats.misorientations_random"
+    loc = defloc(ctx, dotted)
+    I = Interp(ctx.program)
+    f = public(ctx, I, dotted)
+    cls = I.resolve("pydrex.geometry.LatticeSystem")
+    for name in GRIMMER:
+        th = THETA_MAX[name]
+        member = cls.members.get(name)
+        construct = f"stats.misorientations_random:{name}"
+        vals, holes, err = [], [], None
+        for k in range(0, min(180, th + 20)):
+            try:
+                v = I.call(f, (k, k + 1, member))
+                x = alg.evalnum(lift(v)) if not isinstance(v, (int, float)) else float(v)
+                if x != x:
+                    raise alg.AlgError("the density is NaN")
+                vals.append((k, x))
+            except RaiseSig as r:
+                if k < th:
+                    holes.append((k, r.exc.typename))
+                vals.append((k, None))
+            except (alg.AlgError, Unsupported, ZeroDivisionError, ValueError, OverflowError) as ex:
+                if k < th:
+                    err = f"bin [{k}, {k + 1}]: {str(ex)[:100]}"
+                    break
+                vals.append((k, None))
+        if err is not None:
+            ctx.ob("C14.coverage", construct, "inconclusive", f"the density could not be evaluated ({err})", loc)
+            ctx.ob("C14.normalisation", construct, "inconclusive", f"the density could not be evaluated ({err})", loc)
+            continue
+        inside = [x for k, x in vals if k < th and x is not None]
+        beyond = [(k, x) for k, x in vals if k >= th and x is not None and abs(x) > 1e-9]
+        total = sum(inside)
+        if holes:
+            first = holes[0][0]
+            ctx.ob("C14.coverage", construct, False,
+                   f"misorientations_random raises {holes[0][1]} for {len(holes)} one-degree bins of [0, {th}], the first at [{first}, {first + 1}]: no branch of the "
+                   "density serves them although they are inside the histogram range", loc)
+            ctx.ob("C14.normalisation", construct, False, f"the density is not defined on all of [0, {th}] (first failing bin [{first}, {first + 1}])", loc)
+            continue
+        if beyond:
+            ctx.ob("C14.coverage", construct, False,
+                   f"the theoretical density has support beyond theta_max = {th} (non-zero up to {beyond[-1][0] + 1} degrees): integrated over the histogram range "
+                   f"it gives {total:.3f} instead of 1, i.e. the support table and the range table disagree", loc)
+        else:
+            ctx.ob("C14.coverage", construct, True, f"{len(inside)} bins of [0, {th}] evaluated, no mass beyond", loc)
+        ctx.ob("C14.normalisation", construct, abs(total - 1.0) <= 1e-3,
+               f"sum over 1-degree bins of the theoretical density on [0, {th}] = {total:.4f} (must be 1 within 1e-3)", loc)
+    ctx.floor("C14.coverage", 6)
+    ctx.floor("C14.normalisation", 6)
 
 
 def fold_assign(stmt, env, only_new=False):
